@@ -98,9 +98,9 @@ def xprop_term(st, o):
     return '(%s %s %d %s %s %s)' % (con, t, d, hb(st['chain']), cs_term(st['cs'], orc), cons_term(st['cons']))
 
 
-def xcase_term(c):
+def xsteps_term(specs, obs):
     steps = []
-    for st, o in zip(c['xibc']['steps'], c['obs']):
+    for st, o in zip(specs, obs):
         post = 'None'
         p = o.get('post')
         if p is not None:
@@ -112,7 +112,11 @@ def xcase_term(c):
                     coq_list(['(mkH %d %d, (%d, %d))' % (k['rev'], k['h'], CONS_CODE[k['kind']], k['ts']) for k in p['cons']]))
         steps.append('{| xo_prop := %s; xo_chain := %s; xo_v := %d%%nat; xo_x := %d%%nat; xo_post := %s |}' % (
             xprop_term(st, o), hb(st.get('chain')), o['v'], 9 if o['x'] < 0 else o['x'], post))
-    return '(CX {| xc_now := %d; xc_steps := %s |})' % (c['extra']['now'], coq_list(steps))
+    return coq_list(steps)
+
+
+def xcase_term(c):
+    return '(CX {| xc_now := %d; xc_steps := %s |})' % (c['extra']['now'], xsteps_term(c['xibc']['steps'], c['obs']))
 
 
 def packet(p):
@@ -129,14 +133,16 @@ def genx_term(c):
     clients = ['(%s, %s)' % (hb(cl['chain']), cs_term(cl['cs'], ors[i] if i < len(ors) else None)) for i, cl in enumerate(g.get('clients') or [])]
     cons = ['(%s, %s)' % (hb(cc['chain']), coq_list(['(%s, %s)' % (height(s['height']), cons_term(s['cons'])) for s in cc['states'] or []]))
             for cc in g.get('consensus') or []]
-    meta = ['(%s, %s)' % (hb(m['chain']), coq_list(['(%d, %d)' % (len(bytes.fromhex(it['key'])), it['val_len']) for it in m['items'] or []]))
+    meta = ['(%s, %s)' % (hb(m['chain']), coq_list(['(%s, %d)' % (hb(it['key']), it['val_len']) for it in m['items'] or []]))
             for m in g.get('metadata') or []]
     rel = ['%d' % len(bytes.fromhex(r['address'])) for r in g.get('relayers') or []]
+    then = xsteps_term(g.get('then') or [], c['obs'][1:])
     return ('(CGX {| gx_clients := %s; gx_consensus := %s; gx_metadata := %s; gx_relayers := %s; gx_native := %s; gx_acks := %s; '
-            'gx_commitments := %s; gx_receipts := %s; gx_seqs := %s |} %s)' % (
+            'gx_commitments := %s; gx_receipts := %s; gx_seqs := %s |} %s %d %s)' % (
                 coq_list(clients), coq_list(cons), coq_list(meta), coq_list(rel), hb(g['native']),
                 coq_list([packet(p) for p in g.get('acks') or []]), coq_list([packet(p) for p in g.get('commitments') or []]),
-                coq_list([packet(p) for p in g.get('receipts') or []]), coq_list([packet(p) for p in g.get('seqs') or []]), obs_vx(o)))
+                coq_list([packet(p) for p in g.get('receipts') or []]), coq_list([packet(p) for p in g.get('seqs') or []]), obs_vx(o),
+                c['extra']['now'], then))
 
 
 def gena_term(c):
@@ -332,6 +338,12 @@ def finding_key(case, step, obs):
     return key
 
 
+FINDING_TEXT = {
+    'rvesting-genesis-unfunded-from': 'rvesting InitGenesis panics "insufficient funds" when the genesis `from` account does not hold '
+                                      'init_reward; hypothesis `covers` of validated_never_panics_rvesting_genesis',
+}
+
+
 def obs_at(c, s):
     if c['kind'] == 'rv':
         o = c['rv_obs']['obs']
@@ -411,6 +423,7 @@ def check(run):
         'aggregate: EVM / ABI / bank / store calls return (value or error) on the arguments the handlers pass']
 
     reported = set()
+    known = {}
     for h, s, k in ff:  # the property failed on the real code
         if h in reported:
             continue
@@ -421,14 +434,19 @@ def check(run):
         # the failing step is the last one of the shrunk case
         if steps_of(small):
             key = finding_key(small, len(steps_of(small)) - 1, ob)
-        if run.known_finding(key, 'key=%s %s' % (key, (ob or {}).get('x_panic') or (ob or {}).get('panic') or '')):
+        if run.known_finding(key, 'key=%s (%s)' % (key, FINDING_TEXT.get(key, 'listed in KNOWN_FINDINGS.txt'))):
+            known[key] = known.get(key, 0) + 1
             continue
         run.violation(dict(kind='monitor', code=k, what=KINDS.get(k), key=key, case=small, failing_step=s, observed=ob),
                       name='replay_c%d.json' % h)
         if len(run.violations) >= 3:
             break
-    if not run.violations:
-        for h, s, k in mm[:1]:  # model and code disagree, property monitor silent
+    run.coverage['known_findings_hit'] = known
+    # model and code disagree although the property monitor is silent on that case (reported in addition to monitor
+    # failures of OTHER cases: an open finding must not mask a broken correspondence)
+    mm = [m for m in mm if m[0] not in reported]
+    if len(run.violations) < 3:
+        for h, s, k in mm[:1]:
             small = shrink(run.work, truncate(results[h], s), 'model')
             run.violation(dict(kind='correspondence', code=k, what=KINDS.get(k), case=small, failing_step=s, observed=obs_at(results[h], s),
                                explanation='Model/Halt*.v no longer describes the code; the theorems of Props/C15.v are about the '
@@ -436,8 +454,10 @@ def check(run):
                                            'around this input found no panic outside recovery)',
                                broken='correspondence Model.Halt <-> x/xibc, x/aggregate, x/rvesting'),
                           name='replay_corr_c%d.json' % h, no_input=True)
-        if not run.proof_ok():
-            run.proof_violation()
+    if not run.proof_ok() and not any(not sfx for _, sfx in run.violations):
+        run.proof_violation()
+    elif not run.proof_ok():
+        run.proof_violation(found_input=True)
     return run.finish()
 
 
